@@ -6,6 +6,8 @@ heuristics are avoided by construction (see DESIGN.md, C11)."""
 
 from __future__ import annotations
 
+import re
+
 import ntpath
 
 from vf.gens import pe as pegen
@@ -128,7 +130,12 @@ def posix_path(r) -> bytes:
 
 
 def _wseg(r) -> bytes:
-    return bytes(r.choice(LOWER + DIGITS + b"_-") for _ in range(r.randint(3, 9))).replace(b"--", b"-q")
+    while True:
+        w = bytes(r.choice(LOWER + DIGITS + b"_-") for _ in range(r.randint(3, 9))).replace(b"--", b"-q")
+        # a segment that reads as a command token starts a shell result of its own (with thousands of segments per path this
+        # is no longer a negligible coincidence)
+        if not re.search(rb"(?<![a-z0-9_])(?:cmd|pwsh|powershell)(?![a-z0-9_])", w):
+            return w
 
 
 def windows_path(r) -> tuple[bytes, str]:
